@@ -223,7 +223,7 @@ def minimise_main(prop, in_path, out_path):
                                                      "size_before": len(core.canon(item["scenario"])),
                                                      "size_after": len(core.canon(sc))}}
     with open(out_path, "w") as f:
-        json.dump(out, f, indent=1, sort_keys=True)
+        json.dump(out, f, indent=1)
     return 0
 
 
@@ -395,7 +395,7 @@ def check_main(prop, tier, master):
                 with open(rp_path, "w") as f:
                     json.dump({"property": prop, "seed": master, "run": v["run"], "hash_seed": v["hash_seed"],
                                "hash_seed_b": v.get("hash_seed_b"), "scenario": v["scenario"], "decisions": [],
-                               "violation": v["violation"], "digest": ""}, f, indent=1, sort_keys=True)
+                               "violation": v["violation"], "digest": ""}, f, indent=1)
                 ok = True
             else:
                 rc = subprocess.call([PY, CHECK, "--minimise", prop, "--in", inp, "--out", rp_path], env=env, cwd=VERIF,
@@ -411,7 +411,7 @@ def check_main(prop, tier, master):
                     with open(rp_path, "w") as f:
                         json.dump({"property": prop, "seed": master, "run": v["run"], "hash_seed": v["hash_seed"],
                                    "scenario": v["scenario"], "decisions": v["decisions"], "violation": v["violation"],
-                                   "digest": v["digest"]}, f, indent=1, sort_keys=True)
+                                   "digest": v["digest"]}, f, indent=1)
             lines.append("violation: %s (in %d runs; first run %d)\n    %s" % (sig, repeat.get(sig, 1), v["run"],
                          v["violation"]["detail"].replace("\n", "\n    ")[:1200]))
             lines.append("VIOLATION property=%s replay=%s" % (prop, rp_path))
